@@ -70,6 +70,21 @@ def dep_tags(d: HTMLDependency, lib_prefix: Optional[str], include_version: bool
     return out
 
 
+import re as _re
+
+_GEN = _re.compile(r"<(link|script|meta)((?: [^ =>/]+=\"[^\"]*\")*)(/?)>")
+_ATTR = _re.compile(r" ([^ =>/]+)=\"([^\"]*)\"")
+
+
+def norm_attr_order(html: str) -> str:
+    """Sort the attributes inside <link>, <script> and <meta> start tags: C11 prescribes which tags are emitted and in
+    which order, not the order of attributes inside a generated tag."""
+    def fix(m):
+        attrs = sorted(_ATTR.findall(m.group(2)))
+        return "<" + m.group(1) + "".join(' %s="%s"' % kv for kv in attrs) + m.group(3) + ">"
+    return _GEN.sub(fix, html)
+
+
 def spec_document(content: List[Any], html_attrs: dict, lib_prefix: Optional[str], include_version: bool):
     """content: the (already flat, already tagified) top-level nodes given to HTMLDocument.
     Returns (expected html string, expected dependency list)."""
